@@ -156,6 +156,11 @@ def build_queries(prop, sysm, u, mon, tier='quick'):
         qs.append(Query('no_process_left_behind', z3.And(S['main.phase'] == 4, z3.Or([S['proc.%d' % t] for t in range(n)])), base, confirm='leak'))
         if not sysm.watch:
             qs.append(Query('failure_leads_to_exit', z3.And(final_quiet, G['any_failed'], z3.Not(S['main.phase'] == 4)), base, confirm='stuck'))
+    elif prop == 'C05':
+        # the "script fails => never remembered as done" half that lives in builder::build_target
+        if not sysm.watch:
+            qs.append(Query('unsuccessful_exit_is_a_failure', G['misclassified'], nohang + [nosig], confirm='rc_not_error',
+                            desc='a script whose process exits unsuccessfully (non-zero code or killed by a signal) is never reported Completed/Skipped'))
     elif prop == 'C20':
         pass
     return qs
